@@ -150,6 +150,8 @@ type world struct {
 	gets        int
 	// wedged: the probe found the server blocked; nothing that takes server locks may be called any more
 	wedged bool
+	// preProbeCanon: canonical state when the (first) probe of this execution started
+	preProbeCanon string
 }
 
 func (w *world) bad(sig, format string, a ...any) {
@@ -557,6 +559,15 @@ func (w *world) step(l Letter, check bool) {
 			if _, still := w.srv.VerifSessions()[s.sid]; still {
 				w.bad("C09/failed-session-not-removed", "%s: the session %s is still in the session table after its RPC ended", l.Name, s.sid)
 			}
+			// "... does not constrain later sessions": whatever the failed session left behind (a lock, a table
+			// entry, cached parameters) shows when a fresh session goes through a whole exchange
+			w.probeAs(l.Name+" (terminating violation)", "C09/server-wedged-after-violation", "C09/server-not-serviceable-after-violation/")
+			if !w.wedged {
+				// (the probe programmed an entry and flushed: the fold follows the server from here)
+				if m, err := ribx.Snapshot(w.srv.VerifRIB()); err == nil {
+					w.fold = m
+				}
+			}
 			for i, o := range w.ss {
 				if i != l.S && len(o.responses) != otherCounts[i] {
 					w.bad("C09/violation-disturbed-another-session", "%s on session %d: session %d received %d messages", l.Name, l.S, i, len(o.responses)-otherCounts[i])
@@ -742,6 +753,17 @@ func (w *world) afterDisconnect(l Letter, si int, before snap, how string) {
 // a separate thread so that a wedged server shows up as "probe did not finish" (deadlock verdict of the
 // scheduler), not as a hang of the harness.
 func (w *world) probe(after string) {
+	w.probeAs(after, "C10/server-wedged-after-disconnect", "C10/server-not-serviceable-after-disconnect/")
+}
+
+// probeAs: a fresh session must be able to negotiate, win the election, program an entry, read it back and flush;
+// "blocked forever" is the scheduler's verdict.
+func (w *world) probeAs(after, sigWedged, sigFail string) {
+	// the probe changes the server (it takes the primary role, programs an entry and flushes): the canonical state of
+	// the history, by which the search deduplicates, is the state BEFORE the probe
+	if w.preProbeCanon == "" {
+		w.preProbeCanon = w.canon()
+	}
 	done := make(chan string, 1)
 	rt.Go("probe", func() {
 		fail := func(f string, a ...any) { rt.Send(done, fmt.Sprintf(f, a...)) }
@@ -750,8 +772,11 @@ func (w *world) probe(after string) {
 			fail("open: %v", err)
 			return
 		}
-		// parameters must equal those of the live sessions that negotiated
-		p := pOK
+		// parameters must equal those of the live sessions that negotiated; when none is left the new session is free
+		// to choose, and chooses what no session of the history asked for (FIB acknowledgements): parameters of
+		// departed sessions must not constrain it
+		p := proto.Clone(pOK).(*spb.SessionParameters)
+		p.AckType = spb.SessionParameters_RIB_AND_FIB_ACK
 		for _, o := range w.ss {
 			if o.open && o.params != nil {
 				p = o.params
@@ -825,12 +850,12 @@ func (w *world) probe(after string) {
 	sel := rt.NewSelect(true)
 	cd := rt.SelRecv(sel, done)
 	if sel.Wait() != 0 {
-		w.bad("C10/server-wedged-after-disconnect", "after %s a fresh session could not complete negotiate / election / ADD / Get / Flush: the probe is blocked forever", after)
+		w.bad(sigWedged, "after %s a fresh session could not complete negotiate / election / ADD / Get / Flush: the probe is blocked forever", after)
 		w.wedged = true
 		return
 	}
 	if msg := cd.Val(); msg != "" {
-		w.bad("C10/server-not-serviceable-after-disconnect/"+strings.SplitN(msg, ":", 2)[0], "after %s the probe failed at %s", after, msg)
+		w.bad(sigFail+strings.SplitN(msg, ":", 2)[0], "after %s the probe failed at %s", after, msg)
 	}
 }
 
@@ -925,7 +950,10 @@ func Execute(o *Options, hist []int) (string, []mc.Fail) {
 		for i, li := range hist {
 			w.step(o.Letters[li], i == len(hist)-1)
 		}
-		if !w.wedged {
+		switch {
+		case w.preProbeCanon != "":
+			canon = w.preProbeCanon
+		case !w.wedged:
 			canon = w.canon()
 		}
 	})
